@@ -253,6 +253,21 @@ def adjoint_cases(ctx, k, K):
                     sc = max(1.0, float(np.abs(ref.adjoint(T1)).max())) * max(1.0, float(np.abs(S).max()))
                     near(ctx, cid, 'SE3.Ad', dict(P2, law='Ad S'), r[0], want, 1e-9 * sc / max(1.0, float(np.abs(want).max())), 'Ad(T) S')
                     near(ctx, cid, 'base.vexa', dict(P2, law='T[S]T^-1'), r[1], want, 1e-9 * sc / max(1.0, float(np.abs(want).max())), 'vexa(T [S] T^-1) = Ad(T) S')
+            # the class-level vee map (the inverse of Twist3.se3()): a 4x4 matrix that arithmetic produced carries ~1e-17 of round-off on its diagonal
+            # and is an element of se(3) all the same (demanded where that residue is below half the library's own 10 eps)
+            cidc = cid + '/Twist3(matrix)'
+            if ctx.want(cidc):
+                Cm = T1 @ ref.skewa(S) @ ref.inv_h(T1)
+                if float(np.abs(np.diag(Cm)).max()) < 1e-15 and float(np.abs(Cm[3]).max()) < 1e-15 and np.any(S):
+                    ctx.case(cidc, key=cidc)
+                    P2 = dict(P, S=sn)
+                    want = ref.adjoint(T1) @ S
+                    sc = max(1.0, float(np.abs(ref.adjoint(T1)).max())) * max(1.0, float(np.abs(S).max()))
+                    ok, r = call(lambda: np.asarray(sm.Twist3(Cm.copy()).S, dtype=float))
+                    if not ok:
+                        ctx.fail(cidc, 'Twist3', 'raises:' + type(r).__name__, dict(P2, law='class vee'), 'Twist3(T [S] T^-1) raised %r (diagonal residue %.1e)' % (r, float(np.abs(np.diag(Cm)).max())))
+                    else:
+                        near(ctx, cidc, 'Twist3', dict(P2, law='class vee'), r, want, 1e-9 * sc / max(1.0, float(np.abs(want).max())), 'Twist3(T [S] T^-1).S = Ad(T) S')
 
 
 def expad_cases(ctx, k, K):
